@@ -24,7 +24,12 @@ A last stage ("named sessions", below) runs the real pcfg_guesser.main() of a sc
 copy of the code tree (harness/main_driver.py): two or three sessions of one ruleset
 under session names of one confusable family, each quit at places of its own inside
 Markov levels and resumed with --load while the other sessions are interrupted in
-between; each session by itself must emit the uninterrupted run piece by piece."""
+between; each session by itself must emit the uninterrupted run piece by piece.
+Both stages run over session VARIANTS (see ALPHABETS below): rulesets written in utf-8 / iso-8859-1 / cp1251 / utf-16 whose
+OMEN alphabet has lower-case, upper-case and caseless letters inside and outside ASCII, sessions started with and without
+--all_lower (resumed runs take the option from the save file, as --load does); the reference is the uninterrupted run under
+the same options, the oracle is unchanged.  A resumed run that raises (e.g. cannot read the position file the interrupted
+run wrote) is C15:resume-raises with the exception text."""
 import json
 import os
 import pickle
@@ -59,6 +64,116 @@ ASSUMES = ["wf_tables G, first_below_max G", "a further pre-terminal is popped a
 
 MARKOV_SYMBOLS = ["ω", "ψ", "λ", "ж", "ф", "ξ"]    # disjoint from every terminal of rulesets.py
 
+# ---------------------------------------------------------------- session variants: options, encoding, OMEN alphabet
+#
+# A session is (ruleset, options typed when it was started).  The saved position of a Markov level is a piece of text
+# (n-grams over the OMEN alphabet) written in one process and read in another, and the options of the session are
+# restored from the save file: both belong to the history.  So rulesets are drawn in several encodings (every file the
+# trainer writes in the ruleset's encoding is written in it, terminals limited to what the encoding has), the OMEN
+# alphabet holds lower-case / upper-case / caseless letters inside and outside ASCII that the encoding can represent,
+# and sessions are run with and without --all_lower (skip_case: given when the session is started, taken from the
+# save file by --load).  The reference is always the UNINTERRUPTED run under the same options.  (--skip_brute removes
+# the Markov base structure, so there is nothing to interrupt under it.)
+# Per encoding: lower[i].upper() == upper[i]; "other" = letters without case, symbols, letters whose other case is
+# not one code point of the encoding.  All disjoint from every terminal of rulesets.py (j, y are the free ASCII letters).
+ALPHABETS = {
+    "utf-8": {"lower": ["ω", "ψ", "λ", "ж", "ф", "ξ", "j", "y"], "upper": ["Ω", "Ψ", "Λ", "Ж", "Ф", "Ξ", "J", "Y"],
+              "other": ["ק", "あ", "ª", "§", "ß", "ǅ", "ŉ"]},
+    "iso-8859-1": {"lower": ["ö", "ü", "å", "ø", "þ", "æ", "j", "y"], "upper": ["Ö", "Ü", "Å", "Ø", "Þ", "Æ", "J", "Y"],
+                   "other": ["ª", "º", "§", "¿", "ß", "ÿ", "µ"]},
+    "cp1251": {"lower": ["ж", "ф", "ю", "ы", "ґ", "њ", "j", "y"], "upper": ["Ж", "Ф", "Ю", "Ы", "Ґ", "Њ", "J", "Y"],
+               "other": ["§", "№", "µ", "¤", "‰"]},
+    "utf-16": {"lower": ["ω", "ψ", "ж", "ф", "\U00010428", "j", "y"], "upper": ["Ω", "Ψ", "Ж", "Ф", "\U00010400", "J", "Y"],
+               "other": ["ק", "あ", "§", "ß", "ǅ", "\U0001d11e"]},
+}
+ENC_CYCLE = ["utf-8", "iso-8859-1", "utf-8", "cp1251", "utf-8", "utf-16"]
+KIND_CYCLE = ["plain", "mixed", "other", "mixed", "mixed"]
+LOWER_CYCLE = [False, True, False, True, True, False, True]
+FILL = {"A": "kmprugv", "D": "3456", "O": "%&+=", "K": "kmprugv", "Y": "3456", "X": "%&+="}
+
+
+def variant_of(idx, shift=0):
+    """The variant of the idx-th ruleset of a stage: every ruleset index has a fixed (encoding, alphabet kind, --all_lower),
+    so that no seed can draw a run without them (cycles of length 6, 5, 7: 210 combinations; index 0 is the plain one)."""
+    i = idx + shift
+    return {"encoding": ENC_CYCLE[i % len(ENC_CYCLE)], "kind": KIND_CYCLE[i % len(KIND_CYCLE)], "all_lower": LOWER_CYCLE[i % len(LOWER_CYCLE)]}
+
+
+def is_utf8_like(enc):
+    return enc.lower().replace("_", "-") in ("utf-8", "utf8", "ascii", "us-ascii")
+
+
+def draw_alphabet(rng, enc, kind, n):
+    """n distinct symbols of the encoding's pools.  plain: lower-case only (what every C15 ruleset had); mixed: letters of both
+    cases, mostly one letter IN both cases; other: at least one caseless / special letter.  Outside UTF-8 at least one symbol is
+    not ASCII and, mostly, one is (quit positions on guesses with and without a character the encoding writes as a high byte)."""
+    P = ALPHABETS[enc]
+    lo, up, ot = P["lower"], P["upper"], P["other"]
+    if kind == "plain":
+        alpha = rng.sample(lo, n)
+    elif kind == "mixed":
+        i = rng.randrange(len(lo))
+        alpha = [lo[i], up[i] if rng.random() < 0.6 else rng.choice(up)]
+        rest = [c for c in lo + up + (ot if rng.random() < 0.3 else []) if c not in alpha]
+        alpha += rng.sample(rest, max(0, n - 2))
+    else:
+        alpha = [rng.choice(ot)]
+        rest = [c for c in lo + up + ot if c not in alpha]
+        alpha += rng.sample(rest, n - 1)
+    alpha = list(dict.fromkeys(alpha))
+    if not is_utf8_like(enc):
+        cased = lo if kind == "plain" else lo + up
+        if all(c.isascii() for c in alpha):
+            alpha[-1] = rng.choice([c for c in cased if not c.isascii() and c not in alpha])
+        # 0, 1 or 2 ASCII symbols beside at least one that is not (a guess is pure ASCII only if all its characters are)
+        want = rng.choice([0, 1, 2, 2])
+        pool = [c for c in cased if c.isascii() and c not in alpha]
+        rng.shuffle(pool)
+        while pool and sum(1 for c in alpha if c.isascii()) < want:
+            high = [k for k, c in enumerate(alpha) if not c.isascii()]
+            if len(alpha) < 4:
+                alpha.append(pool.pop())
+            elif len(high) > 1:
+                alpha[high[-1]] = pool.pop()
+            else:
+                break
+    rng.shuffle(alpha)
+    return alpha
+
+
+def fit_terminals(rs, enc, rng):
+    """Terminal values the encoding cannot represent are replaced by fresh ASCII values of the same length (a capitalisation
+    mask indexes into its word) that the list does not hold yet."""
+    for k, lines in rs["files"].items():
+        have = set(v for v, _ in lines)
+        new = []
+        for v, p in lines:
+            try:
+                v.encode(enc)
+            except UnicodeEncodeError:
+                pool = FILL.get(k[0], "kmprugv")
+                for _ in range(200):
+                    w = "".join(rng.choice(pool) for _ in range(len(v)))
+                    if w not in have:
+                        break
+                else:
+                    raise RuntimeError("no substitute for %r in %s" % (v, k))
+                have.add(w)
+                v = w
+            new.append((v, p))
+        rs["files"][k] = new
+    return rs
+
+
+def write_rules(rs, rd):
+    """rulesets.write_ruleset, and omen_keyspace.txt in the ruleset's encoding as the trainer writes it (load_omen_keyspace reads
+    it in that encoding; the shared writer writes it as plain text, the same bytes for UTF-8 / Latin-1 / cp1251 but not UTF-16)."""
+    import codecs
+    rulesets.write_ruleset(rs, rd)
+    with codecs.open(os.path.join(rd, "Omen", "omen_keyspace.txt"), "w", encoding=rs.get("encoding", "utf-8")) as f:
+        for lvl, ks in (rs.get("omen_keyspace") or {str(l): 1 for l, _ in rs.get("omen_prob", [])}).items():
+            f.write("%s\t%d\n" % (lvl, ks))
+
 
 class _FakeThread:
     def __init__(self, target=None, args=(), kwargs=None, **kw):
@@ -80,7 +195,7 @@ class _FakeThreading:
 CAT = {"M": 0, "C": 1}          # ExpandCorr.cat_of
 
 
-def run_session(rs, rd, sav, load, quit_after=None, cap=4000, quit_in_next=None, tables=False):
+def run_session(rs, rd, sav, load, quit_after=None, cap=4000, quit_in_next=None, tables=False, lower=False):
     """One run of the real session.  Returns a dict: stream, pops (pt, prob), segments
     (start index in the stream per created pre-terminal), restored (number of guesses
     emitted by restore_omen, or None), next_calls (per MarkovCracker.next_guess call:
@@ -97,21 +212,25 @@ def run_session(rs, rd, sav, load, quit_after=None, cap=4000, quit_in_next=None,
     with warnings.catch_warnings():
         warnings.simplefilter("ignore")
         import pcfg_guesser
-    info = {"rule_name": rs["name"], "skip_brute": False, "skip_case": False}
+    # as pcfg_guesser.main(): the options typed for a NEW session (lower = --all_lower); --load takes them from the save file,
+    # which is read BEFORE the grammar is built because they decide which grammar is loaded
+    info = {"rule_name": rs["name"], "skip_brute": False, "skip_case": bool(lower) and not load}
     res = {"stream": [], "pops": [], "segments": [], "restored": None, "error": None, "next_calls": []}
     from lib_guesser.omen.markov_cracker import MarkovCracker
 
     def body():
-        pcfg = PcfgGrammar(rs["name"], rd, "4.7", sav, False, False, False)
-        if tables:
-            vm, table, bases = rulesets.model_tables(pcfg)
-            res["model"] = {"vm": vm, "table": table, "bases": bases,
-                            "terms": [[(CAT.get(nm[0], 2), list(grp["values"])) for grp in pcfg.grammar[nm]] for nm in vm.names]}
+        cfg = None
         if load:
             cfg = pcfg_guesser.load_save(sav, info)
             if cfg is None:
                 raise RuntimeError("load_save failed")
-        else:
+        res["flags"] = {"skip_brute": info["skip_brute"], "skip_case": info["skip_case"]}
+        pcfg = PcfgGrammar(rs["name"], rd, "4.7", sav, skip_brute=info["skip_brute"], skip_case=info["skip_case"], debug=False)
+        if tables:
+            vm, table, bases = rulesets.model_tables(pcfg)
+            res["model"] = {"vm": vm, "table": table, "bases": bases,
+                            "terms": [[(CAT.get(nm[0], 2), list(grp["values"])) for grp in pcfg.grammar[nm]] for nm in vm.names]}
+        if not load:
             cfg = pcfg_guesser.create_save_config(info)
         if not cfg.has_option("rule_info", "uuid"):
             cfg.set("rule_info", "uuid", pcfg.ruleset_info["uuid"])
@@ -213,23 +332,23 @@ def read_omn(path):
     try:
         with open(path, "rb") as f:
             return [pickle.load(f) for _ in range(5)]
-    except (EOFError, pickle.UnpicklingError):
+    except Exception:            # not five pickles (whatever else was written there): the model has no state to compare
         return None
 
 
-def gen_case(rng, idx):
-    """A ruleset with a small OMEN model and Markov levels of 1..60 strings."""
+def gen_case(rng, idx, variant=None):
+    """A ruleset with a small OMEN model and Markov levels of 1..60 strings, in the variant's encoding and with an OMEN
+    alphabet of the variant's kind (see ALPHABETS; symbols that no other terminal uses)."""
+    variant = variant or {"encoding": "utf-8", "kind": "plain", "all_lower": False}
+    enc = variant["encoding"]
     for _ in range(50):
-        om = omen_gen.gen_model(rng, {"ngram": rng.choice([2, 2, 3, 3, 4]), "nalpha": rng.randint(2, 4),
+        alpha = draw_alphabet(rng, enc, variant["kind"], rng.randint(2, 4))
+        for c in alpha:
+            c.encode(enc)
+        om = omen_gen.gen_model(rng, {"ngram": rng.choice([2, 2, 3, 3, 4]), "alphabet": alpha,
                                       "ip_mode": rng.choice(["low", "mid", "two", "zero", "wide"]),
                                       "ln_mode": rng.choice(["low", "mid", "two", "zero"]),
                                       "cp_mode": rng.choice(["low", "mid", "two", "wide"])}, max_strings=600)
-        # symbols that no other terminal uses
-        sub = dict(zip(om["alphabet"], rng.sample(MARKOV_SYMBOLS, len(om["alphabet"]))))
-        tr = lambda s: "".join(sub[c] for c in s)
-        om["alphabet"] = [sub[c] for c in om["alphabet"]]
-        for k in ("ip", "ep", "cp"):
-            om[k] = [(l, tr(s)) for l, s in om[k]]
         buckets = omen_gen.brute_levels(om)
         good = [t for t, c in buckets.items() if 1 <= sum(c.values()) <= 60]
         if not good:
@@ -239,6 +358,10 @@ def gen_case(rng, idx):
     else:
         raise RuntimeError("no usable OMEN model")
     rs = rulesets.gen_ruleset(rng, with_markov=True, max_bases=2, max_len=2, name="S%d" % idx)
+    rs["encoding"] = enc
+    rs["c15_variant"] = dict(variant)
+    if not is_utf8_like(enc):
+        fit_terminals(rs, enc, rng)
     rng.shuffle(good)
     levels = good[:rng.randint(1, 3)]
     if rng.random() < 0.3:
@@ -292,10 +415,11 @@ def analyse(U, j, a, b, lvl_pt, R1, R2, replay):
     if first != rest_level:
         rep = [s for s in first if s in set(U["stream"][a:j + 1])]
         skipped = [s for s in rest_level if s not in set(first)]
-        vio.append({"sig": "C15:remainder:" + ("repeated" if rep else "skipped" if skipped else "order"),
+        extra = [s for s in first if s not in set(U["stream"][a:b])]      # not a string of the level as THIS session generates it
+        vio.append({"sig": "C15:remainder:" + ("repeated" if rep else "extra" if extra else "skipped" if skipped else "order"),
                     "what": "quit after guess %d of the run (position %d of %d in the level): the restored level emitted %d guesses %r..., "
-                            "the remainder is %d guesses %r...; repeated %r skipped %r"
-                            % (j + 1, j - a + 1, b - a, len(first), first[:3], len(rest_level), rest_level[:3], rep[:2], skipped[:2]),
+                            "the remainder is %d guesses %r...; repeated %r skipped %r, not in the uninterrupted level at all %r"
+                            % (j + 1, j - a + 1, b - a, len(first), first[:3], len(rest_level), rest_level[:3], rep[:2], skipped[:2], extra[:3]),
                     "replay": replay})
         return vio, "bad"
     # then the rest of the run: nothing lost; the level itself again only when tied with the saved probability
@@ -368,13 +492,14 @@ def analyse_complete(U, b, lvl_pt, R1, R2, replay, level_strings):
     return vio, ("tied" if tied else "ok")
 
 
-def explore(ctx, rs, om, buckets, sc, dist, cases, samples, max_cuts, two_cases, ms_rulesets):
+def explore(ctx, rs, om, buckets, sc, dist, cases, samples, max_cuts, two_cases, ms_rulesets, lower=False):
+    """lower: the session is started with --all_lower (every first run of a history; resumed runs take it from the save file)."""
     vio = []
     rd = os.path.join(sc, "Rules", rs["name"])
-    rulesets.write_ruleset(rs, rd)
+    write_rules(rs, rd)
     sav = os.path.join(sc, "sess_%s.sav" % rs["name"])
     omn = sav[:-4] + ".omn"
-    U = run_session(rs, rd, sav, False, tables=True)
+    U = run_session(rs, rd, sav, False, tables=True, lower=lower)
     if U["error"]:
         dist["uninterrupted_error"] += 1
         return vio, 0, 0
@@ -397,7 +522,17 @@ def explore(ctx, rs, om, buckets, sc, dist, cases, samples, max_cuts, two_cases,
         T = None
         js = list(range(a, b))
         if len(js) > max_cuts:
-            keep = {a, b - 1} | set(ctx.rng.sample(js, max_cuts - 2))
+            # always: the ends; a guess with and one without a non-ASCII character; a guess with and one without an upper-case
+            # letter; the last guess before which / after which the level still has a string with an upper-case letter
+            keep = {a, b - 1}
+            has_up = lambda g: g != g.lower()
+            for pred in (lambda j: not stream[j].isascii(), lambda j: stream[j].isascii(), lambda j: has_up(stream[j]),
+                         lambda j: not has_up(stream[j]) and any(has_up(g) for g in stream[j + 1:b])):
+                pool = [j for j in js if pred(j)]
+                if pool:
+                    keep.add(ctx.rng.choice(pool))
+            rest = [j for j in js if j not in keep]
+            keep |= set(ctx.rng.sample(rest, max(0, min(len(rest), max_cuts - len(keep)))))
             js = sorted(keep)
         two_cycle_js = set(ctx.rng.sample(js, min(len(js), 2)))
         markov_ordinal = sum(1 for (_, p2) in U["segments"][:seg_i] if p2[0][0] == "M")
@@ -407,8 +542,8 @@ def explore(ctx, rs, om, buckets, sc, dist, cases, samples, max_cuts, two_cases,
             for f in (sav, omn):
                 if os.path.exists(f):
                     os.remove(f)
-            replay = {"ruleset": rs, "quit_in_next": m_ex}
-            R1 = run_session(rs, rd, sav, False, quit_in_next=m_ex)
+            replay = {"ruleset": rs, "all_lower": lower, "quit_in_next": m_ex}
+            R1 = run_session(rs, rd, sav, False, quit_in_next=m_ex, lower=lower)
             R2 = run_session(rs, rd, sav, True)
             v, kind = analyse_complete(U, b, pt, R1, R2, replay, set(stream[a:b]))
             vio += v
@@ -422,25 +557,25 @@ def explore(ctx, rs, om, buckets, sc, dist, cases, samples, max_cuts, two_cases,
             for f in (sav, omn):
                 if os.path.exists(f):
                     os.remove(f)
-            Ra = run_session(rs, rd, sav, False, quit_after=jn + 1)
+            Ra = run_session(rs, rd, sav, False, quit_after=jn + 1, lower=lower)
             sa = read_omn(omn) if os.path.exists(omn) else None
             for f in (sav, omn):
                 if os.path.exists(f):
                     os.remove(f)
-            Rb = run_session(rs, rd, sav, False, quit_in_next=m_j)
+            Rb = run_session(rs, rd, sav, False, quit_in_next=m_j, lower=lower)
             sb = read_omn(omn) if os.path.exists(omn) else None
             evaluations += 1
             dist["quit_inside_kth_call"] += 1
             if Ra["stream"] != Rb["stream"] or sa != sb or Ra.get("cfg", {}).get("guessing_info") != Rb.get("cfg", {}).get("guessing_info"):
                 vio.append({"sig": "C15:quit-inside-call-differs", "what": "quit raised inside the next_guess call returning guess %d differs "
                             "from the quit after that guess (streams %d/%d, states %r / %r)"
-                            % (jn + 1, len(Ra["stream"]), len(Rb["stream"]), sa, sb), "replay": {"ruleset": rs, "quit_in_next": m_j}})
+                            % (jn + 1, len(Ra["stream"]), len(Rb["stream"]), sa, sb), "replay": {"ruleset": rs, "all_lower": lower, "quit_in_next": m_j}})
         for j in js:
             for f in (sav, omn):
                 if os.path.exists(f):
                     os.remove(f)
-            replay = {"ruleset": rs, "quit_after": j + 1}
-            R1 = run_session(rs, rd, sav, False, quit_after=j + 1)
+            replay = {"ruleset": rs, "all_lower": lower, "quit_after": j + 1}
+            R1 = run_session(rs, rd, sav, False, quit_after=j + 1, lower=lower)
             state = read_omn(omn) if os.path.exists(omn) else None
             cfg1 = R1.get("cfg", {})
             R2 = run_session(rs, rd, sav, True)
@@ -453,6 +588,18 @@ def explore(ctx, rs, om, buckets, sc, dist, cases, samples, max_cuts, two_cases,
             evaluations += 1
             dist["cuts"] += 1
             dist["cuts_" + kind] += 1
+            if kind in ("ok", "tied", "bad"):
+                g = stream[j]
+                if not g.isascii():
+                    dist["cuts_after_non_ascii_guess"] += 1
+                    if not is_utf8_like(rs["encoding"]):
+                        dist["cuts_after_non_ascii_guess_" + rs["encoding"]] += 1
+                elif not is_utf8_like(rs["encoding"]):
+                    dist["cuts_after_ascii_guess_" + rs["encoding"]] += 1
+                if lower:
+                    dist["cuts_all_lower"] += 1
+                    if any(x != x.lower() for x in stream[j + 1:b]):
+                        dist["cuts_all_lower_upper_case_strings_remaining"] += 1
             if not R1["error"] and not R2["error"] and "model" in U:
                 # the same history for the combined session model (MarkovSession.v)
                 saved_here = bool(R1["pops"]) and R1["pops"][-1] is not None and "omen_guess_number" in gi and state is not None
@@ -493,7 +640,7 @@ def explore(ctx, rs, om, buckets, sc, dist, cases, samples, max_cuts, two_cases,
                     for f in (sav, omn):
                         if os.path.exists(f):
                             os.remove(f)
-                    run_session(rs, rd, sav, False, quit_after=j + 1)
+                    run_session(rs, rd, sav, False, quit_after=j + 1, lower=lower)
                     state1 = read_omn(omn) if os.path.exists(omn) else None
                     R2q = run_session(rs, rd, sav, True, quit_after=qa, quit_in_next=qn)
                     state2 = read_omn(omn) if os.path.exists(omn) else None
@@ -557,7 +704,7 @@ def explore(ctx, rs, om, buckets, sc, dist, cases, samples, max_cuts, two_cases,
 # levels at its own positions and resumed with --load after the OTHER sessions were interrupted.  Every session on its own
 # must emit the uninterrupted run: the restored part of each resumed run is the remainder of ITS interrupted level.
 
-NAMED_RULESETS = (10, 60)       # quick, thorough
+NAMED_RULESETS = (12, 60)       # quick, thorough
 NAME_STEMS = ["night", "run", "crack", "rockyou", "s", "ab", "my.list", "Wörter"]
 
 
@@ -632,12 +779,12 @@ def usable_names(names, probe_dir):
 REF_ERRORS = []
 
 
-def named_reference(code, rs, cap=4000):
-    """The uninterrupted run of main() for the ruleset, with the places a quit can be delivered.  None unless every
+def named_reference(code, rs, cap=4000, lower=False):
+    """The uninterrupted run of main() for the ruleset (lower: started with --all_lower), with the places a quit can be delivered.  None unless every
     pre-terminal of the run has its own probability (then the resumed queue has exactly one order, and each session's
     outputs concatenate to the reference run EXACTLY) and some Markov level of >= 3 strings is followed by a further
     pre-terminal (R18: a quit in the final pre-terminal is not saved)."""
-    r = common.run_main_driver(code, ["-r", rs["name"], "-s", "reference run"], cap=cap)
+    r = common.run_main_driver(code, ["-r", rs["name"], "-s", "reference run"] + (["--all_lower"] if lower else []), cap=cap)
     if r.get("error") or not r["pops"] or len(r.get("pop_at", [])) != len(r["pops"]):
         REF_ERRORS.append(str(r.get("error")))
         return None
@@ -664,14 +811,15 @@ def stop_of(U, g):
     return g if m else b
 
 
-def gen_history(rng, U, names):
+def gen_history(rng, Us, names):
     """Events [name, load, quit_after (guesses of THAT run) or None]: per session 1-3 quits at increasing places of its own,
     mostly inside Markov levels, then --load to the end; all sessions are started before any is resumed, the rest is a
-    random interleaving."""
-    markov = [g for g, i in U["seg_of"].items() if U["segs"][i][2]]
-    anyg = sorted(U["seg_of"])
+    random interleaving.  Us: name -> reference run of that session's options."""
     per, firsts = {}, set()
     for n in names:
+        U = Us[n]
+        markov = [g for g, i in U["seg_of"].items() if U["segs"][i][2]]
+        anyg = sorted(U["seg_of"])
         cuts, done = [], 0
         for c in range(rng.randint(1, 3)):
             pool = [g for g in (markov if rng.random() < (0.95 if c == 0 else 0.75) else anyg) if g > done]
@@ -694,19 +842,23 @@ def gen_history(rng, U, names):
     return events
 
 
-def run_history(code, rs, events, cap=4000):
-    # every invocation is a new process with its own string-hash salt (PYTHONHASHSEED differs from run to run, deterministically)
-    return [common.run_main_driver(code, ["-r", rs["name"], "-s", n] + (["--load"] if load else []), quit_after_guesses=q, cap=cap,
+def run_history(code, rs, events, cap=4000, lower_names=()):
+    # every invocation is a new process with its own string-hash salt (PYTHONHASHSEED differs from run to run, deterministically);
+    # --all_lower is typed when a session of lower_names is STARTED, never with --load (the save file carries it)
+    return [common.run_main_driver(code, ["-r", rs["name"], "-s", n] + (["--load"] if load else ["--all_lower"] if n in lower_names else []),
+                                   quit_after_guesses=q, cap=cap,
                                    hashseed=(0, 101, 20222, 7, 4242)[i % 5])
             for i, (n, load, q) in enumerate(events)]
 
 
-def judge_history(U, events, results, replay):
-    """Per session: every run emits exactly the next piece of the reference run; the first difference is reported (with the
-    sigs of `analyse`, which also judges the last interrupted / final pair as a whole)."""
+def judge_history(Us, events, results, replay):
+    """Per session: every run emits exactly the next piece of the reference run UNDER THAT SESSION'S OPTIONS (Us: name ->
+    reference); the first difference is reported (with the sigs of `analyse`, which also judges the last interrupted / final
+    pair as a whole)."""
     vio, stats = [], Counter()
-    stream = U["stream"]
     for name in dict.fromkeys(e[0] for e in events):
+        U = Us[name]
+        stream = U["stream"]
         runs = [(k, e, results[k]) for k, e in enumerate(events) if e[0] == name]
         emitted, pending, outs = 0, None, []
         bad = False
@@ -741,10 +893,12 @@ def judge_history(U, events, results, replay):
                     before = set(stream[a:emitted])
                     rep = [x for x in first if x in before]
                     skipped = [x for x in wfirst if x not in set(first)]
-                    vio.append({"sig": "C15:remainder:" + ("repeated" if rep else "skipped" if skipped else "order"),
+                    extra = [x for x in first if x not in set(stream[a:b])]
+                    vio.append({"sig": "C15:remainder:" + ("repeated" if rep else "extra" if extra else "skipped" if skipped else "order"),
                                 "what": "named sessions through main(): %s was quit after guess %d of a Markov level of %d strings and resumed with "
-                                        "--load: it starts with %r..., the remainder of its level is %d strings %r...; repeated %r skipped %r"
-                                        % (ctx_txt, emitted - a, b - a, first[:3], len(rem), rem[:3], rep[:2], skipped[:2]), "replay": replay})
+                                        "--load: it starts with %r..., the remainder of its level is %d strings %r...; repeated %r skipped %r, "
+                                        "not in the uninterrupted level at all %r"
+                                        % (ctx_txt, emitted - a, b - a, first[:3], len(rem), rem[:3], rep[:2], skipped[:2], extra[:3]), "replay": replay})
                 else:
                     i = next((x for x in range(min(len(got), len(want))) if got[x] != want[x]), min(len(got), len(want)))
                     vio.append({"sig": "C15:named-session:stream",
@@ -782,11 +936,12 @@ def judge_history(U, events, results, replay):
     return vio, stats
 
 
-def interleaved_resumes(U, events):
+def interleaved_resumes(Us, events):
     """Resumed runs of a session interrupted inside a Markov level BETWEEN whose interruption and resume another session
     was interrupted inside a Markov level (the histories where a shared position file would show)."""
     n, pos, last_markov_quit = 0, {}, {}
     for k, (name, load, q) in enumerate(events):
+        U = Us[name]
         if load and name in last_markov_quit and any(k2 > last_markov_quit[name] for m, k2 in last_markov_quit.items() if m != name):
             n += 1
         if q is not None:
@@ -801,9 +956,12 @@ def interleaved_resumes(U, events):
     return n
 
 
-def gen_named_ruleset(rng, idx):
+NAMED_MODES = ["default", "lower", "mixed", "lower", "default"]      # which sessions of a named-sessions ruleset are started with --all_lower
+
+
+def gen_named_ruleset(rng, idx, variant=None):
     """gen_case, the Markov base structure mostly moved to the most probable line (the first pre-terminals are Markov levels)."""
-    rs, om, buckets = gen_case(rng, idx)
+    rs, om, buckets = gen_case(rng, idx, variant)
     rs["name"] = "N%d" % idx
     if rng.random() < 0.7:
         structs = [s for s, _ in rs["grammar"]]
@@ -821,26 +979,44 @@ def named_sessions(ctx, dist, samples):
     pre = common.scratch()
     tries, jobs = 0, []
     for i in range(nrs):
-        U = None
-        while U is None and tries < 60 * nrs:
+        # the ruleset's variant (encoding, OMEN alphabet) and which of its sessions are started with --all_lower: fixed per index
+        variant = variant_of(i, shift=1)
+        mode = NAMED_MODES[i % len(NAMED_MODES)]
+        need = {"default": [False], "lower": [True], "mixed": [False, True]}[mode]
+        refs = None
+        while refs is None and tries < 60 * nrs:
             tries += 1
-            rs = gen_named_ruleset(ctx.rng, i)
-            # cheap look at the run in this process first (same conditions as named_reference)
+            rs = gen_named_ruleset(ctx.rng, i, variant)
+            # cheap look at the run in this process first (same conditions as named_reference), under each set of options needed
             rd = os.path.join(pre, "Rules", rs["name"])
             shutil.rmtree(rd, ignore_errors=True)
-            rulesets.write_ruleset(rs, rd)
-            P = run_session(rs, rd, os.path.join(pre, "pre.sav"), False, cap=1500)
-            pp = [p for p in P["pops"] if p is not None]
-            if P["error"] or len(set(p[1] for p in pp)) != len(pp):
+            write_rules(rs, rd)
+            usable = True
+            for lw in need:
+                P = run_session(rs, rd, os.path.join(pre, "pre.sav"), False, cap=1500, lower=lw)
+                pp = [p for p in P["pops"] if p is not None]
+                if P["error"] or len(set(p[1] for p in pp)) != len(pp):
+                    usable = False
+                    break
+            if not usable:
                 continue
             dist["named_reference_runs"] += 1
             code = common.copy_code_tree(common.scratch())
-            rulesets.write_ruleset(rs, os.path.join(code, "Rules", rs["name"]))
-            U = named_reference(code, rs)
+            write_rules(rs, os.path.join(code, "Rules", rs["name"]))
+            got = {}
+            for lw in need:
+                got[lw] = named_reference(code, rs, lower=lw)
+                if got[lw] is None:
+                    break
             shutil.rmtree(code, ignore_errors=True)
-        if U is None:
+            if all(got.get(lw) is not None for lw in need):
+                refs = got
+        if refs is None:
             break
         dist["named_rulesets"] += 1
+        dist["named_rulesets_" + mode] += 1
+        dist["named_rulesets_encoding_" + variant["encoding"]] += 1
+        dist["named_rulesets_alphabet_" + variant["kind"]] += 1
         for h in range(nhist):
             kind, fam = name_family(ctx.rng)
             names = usable_names(fam, probe)
@@ -848,25 +1024,47 @@ def named_sessions(ctx, dist, samples):
             if len(names) < 2:
                 continue
             names = names[:3] if ctx.rng.random() < 0.35 else names[:2]
-            jobs.append((rs, U, kind, names, gen_history(ctx.rng, U, names)))
+            if mode == "mixed":
+                # sessions of ONE ruleset under different options: at least one of each
+                flags = [True, False] + [ctx.rng.random() < 0.5 for _ in names[2:]]
+                ctx.rng.shuffle(flags)
+            else:
+                flags = [mode == "lower"] * len(names)
+            lower_names = [n for n, f in zip(names, flags) if f]
+            Us = {n: refs[f] for n, f in zip(names, flags)}
+            jobs.append((rs, Us, kind, names, gen_history(ctx.rng, Us, names), lower_names))
 
     def execute(job):
-        rs, U, kind, names, events = job
+        rs, Us, kind, names, events, lower_names = job
         code = common.copy_code_tree(common.scratch())
         try:
-            rulesets.write_ruleset(rs, os.path.join(code, "Rules", rs["name"]))
-            return run_history(code, rs, events)
+            write_rules(rs, os.path.join(code, "Rules", rs["name"]))
+            return run_history(code, rs, events, lower_names=lower_names)
         finally:
             shutil.rmtree(code, ignore_errors=True)
     # the histories are independent (a code copy each): a few at a time
     from concurrent.futures import ThreadPoolExecutor
     with ThreadPoolExecutor(max_workers=max(1, min(6, common.NCPU // 3))) as pool:
         all_results = list(pool.map(execute, jobs))
-    for (rs, U, kind, names, events), results in zip(jobs, all_results):
-        replay = {"ruleset": rs, "cli": "named-sessions", "events": events}
-        v, stats = judge_history(U, events, results, replay)
+    for (rs, Us, kind, names, events, lower_names), results in zip(jobs, all_results):
+        replay = {"ruleset": rs, "cli": "named-sessions", "events": events, "all_lower_sessions": lower_names}
+        v, stats = judge_history(Us, events, results, replay)
         vio += v
-        il = interleaved_resumes(U, events)
+        il = interleaved_resumes(Us, events)
+        U = Us[names[0]]
+        dist["named_sessions_all_lower"] += len(lower_names)
+        dist["named_sessions_default_options"] += len(names) - len(lower_names)
+        # quits inside Markov levels right after a guess with a character outside ASCII, per encoding
+        pos = {}
+        for (n, load, q) in events:
+            if q is not None and pos.get(n, 0) + q in Us[n]["seg_of"]:
+                end = stop_of(Us[n], pos.get(n, 0) + q)
+                pos[n] = end
+                if Us[n]["segs"][Us[n]["seg_of"][end]][2]:
+                    g = Us[n]["stream"][end - 1]
+                    dist["named_markov_quits_after_%s_guess_%s" % ("ascii" if g.isascii() else "non_ascii", rs["encoding"])] += 1
+                    if n in lower_names and any(x != x.lower() for x in Us[n]["stream"][end:Us[n]["segs"][Us[n]["seg_of"][end]][1]]):
+                        dist["named_markov_quits_all_lower_upper_case_strings_remaining"] += 1
         dist["named_histories"] += 1
         dist["named_histories_%d_sessions" % len(names)] += 1
         dist["named_family_" + kind] += 1
@@ -877,22 +1075,28 @@ def named_sessions(ctx, dist, samples):
         evaluations += len(names)
         nontrivial += 1 if il else 0
         if len([x for x in samples if "named_sessions" in x]) < 2 and il:
-            samples.append({"named_sessions": names, "events": events, "reference_guesses": len(U["stream"]),
+            samples.append({"named_sessions": names, "all_lower_sessions": lower_names, "encoding": rs["encoding"], "events": events,
+                            "reference_guesses": len(U["stream"]),
                             "markov_levels": [(a, b) for (a, b, m, _) in U["segs"] if m]})
     return vio, evaluations, nontrivial
 
 
 def named_replay(inp):
     rs, events = inp["ruleset"], [list(e) for e in inp["events"]]
+    lower_names = list(inp.get("all_lower_sessions") or [])
+    names = list(dict.fromkeys(e[0] for e in events))
     code = common.copy_code_tree(common.scratch())
-    rulesets.write_ruleset(rs, os.path.join(code, "Rules", rs["name"]))
-    U = named_reference(code, rs)
-    if U is None:
-        return []
+    write_rules(rs, os.path.join(code, "Rules", rs["name"]))
+    refs = {}
+    for lw in sorted(set(n in lower_names for n in names)):
+        refs[lw] = named_reference(code, rs, lower=lw)
+        if refs[lw] is None:
+            return []
+    Us = {n: refs[n in lower_names] for n in names}
     code2 = common.copy_code_tree(common.scratch())
-    rulesets.write_ruleset(rs, os.path.join(code2, "Rules", rs["name"]))
-    results = run_history(code2, rs, events)
-    return judge_history(U, events, results, inp)[0]
+    write_rules(rs, os.path.join(code2, "Rules", rs["name"]))
+    results = run_history(code2, rs, events, lower_names=lower_names)
+    return judge_history(Us, events, results, inp)[0]
 
 
 HEADER = ["From Coq Require Import List Bool NArith ZArith.", "From Pcfg Require Import OmenSpec Omen OmenCorr.",
@@ -929,8 +1133,8 @@ def _strs(l):
     return common.clist([common.cstr(x) for x in l]) if l else "(@nil str)"
 
 
-def session_shard(ms):
-    """Coq source: the combined session model against every recorded cut of one ruleset."""
+def session_shard(ms, cases=None):
+    """Coq source: the combined session model against every recorded cut of one ruleset (or against the given ones of them)."""
     import impl_next
     U, om = ms["U"], ms["om"]
     M = U["model"]
@@ -961,7 +1165,7 @@ def session_shard(ms):
             defs.append("Definition %s : %s := %s." % (names[lit], typ, lit))
         return names[lit]
     rows = []
-    for c in ms["cases"]:
+    for c in (ms["cases"] if cases is None else cases):
         o1 = c["order1"]
         order1 = "(firstn %d%%nat uorder)" % len(o1) if o1 == uorder[:len(o1)] else named("o1", "list tobs", _obs_list(vm, o1))
         s1 = c["out1"]
@@ -994,7 +1198,7 @@ def coq_resume_case(c):
 
 def run(ctx):
     sc = common.scratch()
-    nrs = ctx.scale(36, 300)
+    nrs = ctx.scale(42, 360)
     max_cuts = ctx.scale(14, 60)
     dist = Counter()
     vio, cases, samples = [], [], []
@@ -1004,8 +1208,15 @@ def run(ctx):
     import time
     t_explore = time.time()
     for i in range(nrs):
-        rs, om, buckets = gen_case(ctx.rng, i)
-        v, e, n = explore(ctx, rs, om, buckets, sc, dist, cases, samples, max_cuts, two_cases, ms_rulesets)
+        variant = variant_of(i)
+        rs, om, buckets = gen_case(ctx.rng, i, variant)
+        before = dist["rulesets"]
+        v, e, n = explore(ctx, rs, om, buckets, sc, dist, cases, samples, max_cuts, two_cases, ms_rulesets, lower=variant["all_lower"])
+        if dist["rulesets"] > before:
+            dist["rulesets_encoding_" + variant["encoding"]] += 1
+            dist["rulesets_alphabet_" + variant["kind"]] += 1
+            dist["rulesets_all_lower"] += 1 if variant["all_lower"] else 0
+            dist["rulesets_alphabet_with_upper_case"] += 1 if any(c != c.lower() for c in om["alphabet"]) else 0
         vio += v
         evaluations += e
         nontrivial += n
@@ -1067,15 +1278,28 @@ def run(ctx):
             else:
                 corr.append(("session-two-cycle:" + name, True, ""))
     # ---- correspondence: the combined session model (queue + level + save + restore) on the same histories
-    ms_shards = [("m%04d" % i, session_shard(ms)) for i, ms in enumerate(ms_rulesets) if ms["cases"]]
-    ms_index = [ms for ms in ms_rulesets if ms["cases"]]
+    # (one shard per ruleset; the model replays the whole session per cut, quadratic in the number of pre-terminals of the run:
+    # the cuts of a ruleset with a very long run are spread over several shards that Coq checks side by side - same cuts, same checks)
+    ms_shards, ms_of = [], {}
+    for i, ms in enumerate(ms_rulesets):
+        if not ms["cases"]:
+            continue
+        pops = sum(1 for q in ms["U"]["pops"] if q is not None)
+        per = max(1, int(6.0e5 / max(1, pops * pops)))          # about 20 s of vm_compute per shard (18 s per cut at 730 pops)
+        chunks = [ms["cases"][k:k + per] for k in range(0, len(ms["cases"]), per)]
+        for ci, chunk in enumerate(chunks):
+            name = "m%04d" % i + ("" if len(chunks) == 1 else "_%02d" % ci)
+            ms_shards.append((name, session_shard(ms, chunk)))
+            ms_of[name] = (ms, chunk)
+        if len(chunks) > 1:
+            dist["coq_session_rulesets_split_over_shards"] += 1
     if ms_shards:
         for name, idx, log in common.run_case_shards("C15c", ms_shards):
-            ms = ms_index[[n for n, _ in ms_shards].index(name)]
+            ms, chunk = ms_of[name]
             if idx is None:
                 corr.append(("session:" + name, False, log[-1200:]))
             elif idx:
-                c = ms["cases"][idx[0]]
+                c = chunk[idx[0]]
                 corr.append(("session:" + name, False, "combined session model (MarkovSession.v) and the real sessions differ on cuts %s of "
                              "ruleset %s; first: %d pre-terminals before the level, quit after its guess %d (%s): interrupted output / "
                              "saved max_probability, omen_guess_number, .omn / resumed output or pop sequence; replay %s"
@@ -1088,7 +1312,11 @@ def run(ctx):
     dist["coq_two_cycle_cases"] = len(two_cases)
     dist["coq_cases"] = len(cases)
     rule = ("generated rulesets with an 'M' base structure over a generated OMEN model (ngram 2-4) and 1-3 Markov levels of 1..60 "
-            "strings; the uninterrupted session, then for EVERY guess j of every such level: quit after j (should_exit set from the "
+            "strings; per ruleset index a fixed variant: encoding of the rule files (utf-8, iso-8859-1, cp1251, utf-16; terminals limited "
+            "to what the encoding has), kind of OMEN alphabet (lower-case only / both cases, mostly one letter in both / caseless and "
+            "special letters; outside UTF-8 with characters inside AND outside ASCII) and whether the session is started with --all_lower "
+            "(restored from the save file on resume); the reference is the uninterrupted run under the same options; "
+            "the uninterrupted session, then for EVERY guess j of every such level: quit after j (should_exit set from the "
             "print_guess wrapper), new PcfgGrammar + run(load_session=True) on the written .sav/.omn; oracle: restored part = remainder "
             "of the level exactly, nothing after it lost, the level not regenerated unless tied with the saved probability; for two cuts "
             "per level a second quit (inside the remainder / outside the level) and a third run: no replay; non-trivial = the cut is "
@@ -1099,7 +1327,9 @@ def run(ctx):
             "pcfg_guesser.main() has no two pre-terminals of equal probability, 2-3 sessions under names of one confusable family (equal "
             "up to the last 1-3 characters with and without a dot before them, extension-like suffixes .sav/.omn, several / leading / "
             "trailing dots, prefixes of each other, spaces, case, non-ASCII letters), each session quit 1-3 times at places of its own "
-            "(mostly inside Markov levels) and resumed with --load, the sessions' runs interleaved; oracle: every run of a session emits "
+            "(mostly inside Markov levels) and resumed with --load, the sessions' runs interleaved; the rulesets in the same variants, "
+            "the sessions of one ruleset all default / all started with --all_lower / some of each (--all_lower typed when a session is "
+            "started only, each session judged against the uninterrupted run under ITS options); oracle: every run of a session emits "
             "exactly the next piece of the reference run (so the restored part is the remainder of ITS level), plus the single-session "
             "judge on the final resume; non-trivial = a session is resumed after ANOTHER session was interrupted inside a Markov level "
             "since its own interruption")
@@ -1110,6 +1340,16 @@ def run(ctx):
     corr.append(("named-sessions:explored", dist.get("named_rulesets", 0) == ctx.scale(*NAMED_RULESETS) and dist.get("named_histories", 0) > 0,
                  "%d of %d rulesets with a usable uninterrupted run of pcfg_guesser.main(); last failures: %r"
                  % (dist.get("named_rulesets", 0), ctx.scale(*NAMED_RULESETS), REF_ERRORS[-3:])))
+    # the variants must have been explored where they matter: quits inside Markov levels of rulesets outside UTF-8 right after
+    # a guess with a non-ASCII character (and after one without), --all_lower sessions quit while strings with upper-case letters
+    # remain in the level; in both stages
+    nu = [e for e in set(ENC_CYCLE) if not is_utf8_like(e)]
+    counts = {"in-process, non-UTF-8 ruleset, quit after a non-ASCII guess": sum(dist.get("cuts_after_non_ascii_guess_" + e, 0) for e in nu),
+              "in-process, non-UTF-8 ruleset, quit after an ASCII guess": sum(dist.get("cuts_after_ascii_guess_" + e, 0) for e in nu),
+              "in-process, --all_lower, upper-case strings remaining": dist.get("cuts_all_lower_upper_case_strings_remaining", 0),
+              "main(), non-UTF-8 ruleset, quit after a non-ASCII guess": sum(dist.get("named_markov_quits_after_non_ascii_guess_" + e, 0) for e in nu),
+              "main(), --all_lower, upper-case strings remaining": dist.get("named_markov_quits_all_lower_upper_case_strings_remaining", 0)}
+    corr.append(("session-variants:explored", all(c > 0 for c in counts.values()), json.dumps(counts)))
     return {"evaluations": evaluations, "distinct_nontrivial": nontrivial, "rule": rule, "samples": samples,
             "corr": corr, "violations": vio, "dist": dict(dist)}
 
@@ -1130,14 +1370,15 @@ def replay(ctx, data):
         return named_replay(inp)
     sc = common.scratch()
     rd = os.path.join(sc, "Rules", rs["name"])
-    rulesets.write_ruleset(rs, rd)
+    write_rules(rs, rd)
     sav = os.path.join(sc, "sess.sav")
-    U = run_session(rs, rd, sav, False)
+    lower = bool(inp.get("all_lower"))
+    U = run_session(rs, rd, sav, False, lower=lower)
     segs = U["segments"] + [(len(U["stream"]), None)]
     os.remove(sav)
     if "quit_after" not in inp:
         # first-cycle quit raised inside a next_guess call
-        R1 = run_session(rs, rd, sav, False, quit_in_next=inp["quit_in_next"])
+        R1 = run_session(rs, rd, sav, False, quit_in_next=inp["quit_in_next"], lower=lower)
         n = len(R1["stream"])
         seg = [(i, s0, segs[i + 1][0], pt) for i, (s0, pt) in enumerate(U["segments"]) if s0 < n <= segs[i + 1][0] or (s0 == n == segs[i + 1][0])]
         seg = [x for x in seg if x[3][0][0] == "M"]
@@ -1157,7 +1398,7 @@ def replay(ctx, data):
         return []
     i, a, b, pt = seg[0]
     U["level_pop_index"] = [k for k, p in enumerate(U["pops"]) if p is not None and p[0] == pt][0]
-    R1 = run_session(rs, rd, sav, False, quit_after=q)
+    R1 = run_session(rs, rd, sav, False, quit_after=q, lower=lower)
     qa, qn = inp.get("then_quit_after"), inp.get("then_quit_in_next")
     if qa is None and qn is None:
         R2 = run_session(rs, rd, sav, True)
